@@ -89,7 +89,7 @@ func (w *World) verifyFn(key string, opt Options) (res *FnResult) {
 		con = &eff
 		aliasFrom = tfn
 	}
-	x := &Exec{w: w, cx: newCx(w, con.Mode == "bv"), fn: fn, key: key, con: con, vars: collectVarsCon(fn, con), maxPaths: 3000, entryPar: map[string]Val{}}
+	x := &Exec{w: w, cx: newCx(w, con.Mode == "bv"), fn: fn, key: key, con: con, vars: collectVarsCon(fn, con), maxPaths: 3000, entryPar: map[string]Val{}, thorough: opt.Thorough}
 	defer func() {
 		res.WallMS = time.Since(t0).Milliseconds()
 		if r := recover(); r != nil {
@@ -187,25 +187,34 @@ func (w *World) verifyFn(key string, opt Options) (res *FnResult) {
 		}
 	}
 	x.findLoops()
+	allLoops := []*loopInfo{}
 	for _, li := range x.loops {
+		allLoops = append(allLoops, li)
+	}
+	for _, m := range x.inlLoops {
+		for _, li := range m {
+			allLoops = append(allLoops, li)
+		}
+	}
+	for _, li := range allLoops {
 		if li.spec != nil && li.spec.Unroll > 0 {
 			x.prune = true
 		}
 	}
-	for _, li := range x.loops {
+	for _, li := range allLoops {
 		if li.spec == nil {
 			panic(unsupported(fmt.Sprintf("loop %d has no loop contract (invariant or unroll)", li.ord)))
 		}
 	}
 	for n := range con.Loops {
 		found := false
-		for _, li := range x.loops {
+		for _, li := range allLoops {
 			if li.ord == n {
 				found = true
 			}
 		}
 		if !found {
-			res.Err = fmt.Sprintf("contract names loop %d but the function has %d loops", n, len(x.loops))
+			res.Err = fmt.Sprintf("contract names loop %d but the function has %d loops", n, len(allLoops))
 			res.EngineErr = true
 			return
 		}
@@ -549,8 +558,25 @@ func (x *Exec) solve(res *FnResult, opt Options) {
 	var order []string
 	coverSat := map[string]bool{}
 	coverSeen := map[string]bool{}
+	beforeSat := map[string]bool{}
+	for _, in := range insts {
+		if in.ref.kind == 'v' && strings.HasPrefix(in.ref.name, "cover:before ") && in.status == "sat" {
+			beforeSat[fmt.Sprintf("%d|%s", in.ref.path, strings.TrimPrefix(in.ref.name, "cover:before "))] = true
+		}
+	}
 	for _, in := range insts {
 		if in.ref.kind == 'v' {
+			if strings.HasPrefix(in.ref.name, "cover:before ") {
+				continue
+			}
+			if strings.HasPrefix(in.ref.name, "cover:after ") {
+				// a call may only make a path contradictory if it already was: flagged when the state was satisfiable
+				// (or undecided) before the call and is unsatisfiable after assuming the callee's postconditions
+				if in.status == "unsat" && beforeSat[fmt.Sprintf("%d|%s", in.ref.path, strings.TrimPrefix(in.ref.name, "cover:after "))] {
+					coverSeen[in.ref.name] = true
+				}
+				continue
+			}
 			coverSeen[in.ref.name] = true
 			if in.status != "unsat" {
 				coverSat[in.ref.name] = true
